@@ -24,7 +24,7 @@ FRONTS = ['decode_actisense_string', 'decode_yacht_devices_string', 'decode_basi
 
 def run(chk, program, tier):
     for r, t in (('FE-FUNNEL', 'one shared decode path'), ('FE-ROLE', 'parameter roles'), ('FE-ORIENT', 'data reversed exactly once'), ('FE-COMBINED', 'reassembly bypass only for whole-message formats'),
-                 ('ENDIAN', 'payload integer is little-endian over wire order')):
+                 ('ENDIAN', 'payload integer is little-endian over wire order'), ('ID-PARSE', 'identifier parse is the inverse of the layout (C05)'), ('ID-BUILD', 'identifier build/parse compose to identity (C05)')):
         chk.rule(r, t)
     funnel(chk, program)
     hexid = A.AStr([('hexbytes', list(reversed([A.norm_byte(W.ID_BITS[8 * i: 8 * i + 8] + [0] * max(0, 8 * i + 8 - 29)) for i in range(4)])))])
@@ -101,6 +101,11 @@ def run(chk, program, tier):
     except A.Unknown as u:
         chk.unknown('FE-COMBINED', 'decode_basic_string(True)', str(u), DEC, 0)
     endian(chk, program)
+    # the binary / Yacht Devices front-ends obtain PGN and addressing from _extract_header, the text formats carry them in clear:
+    # both agree only if the parse is the inverse of the documented identifier layout (C05's per-bit obligations)
+    from .c16 import _Sub
+    from . import c05
+    c05.run(_Sub(chk, {'ID-PARSE', 'ID-BUILD'}), program, tier)
 
 def funnel(chk, program):
     m = program.mod('decoder')
